@@ -5,14 +5,16 @@ C11 — results depend only on arguments, under any concurrency and call history
     exactly what that thread itself wrote;
 (b) stale data: whatever the pooled buffer contained when it was obtained (left by *any* history of earlier
     calls or by an adversary), the assembled OCRA message – hence the code – is the same;
-(c) regenerated program facts: the pool protocol of each function that uses a pool is the reviewed one (Get
-    first, writes/appends only after the reslice to 0 / full overwrite, Put deferred), nothing is stored into
+(c) regenerated program facts: the pool operations of each function that uses a pool satisfy `PoolProto.protocolOk`
+    (one Get, one Put of the same pool, written before read, never handed to code that may keep it) and such a
+    list is a behaviour of the abstract machine (`C11_protocol_refines`); nothing is stored into
     package-level state outside `init`, no returned string is a view of pooled or shared memory;
 (d) the models are functions of their arguments only (there is no state to depend on).
 The Go memory model, sync.Pool's implementation and the scheduler are assumed to implement the abstraction;
 the race-detector stress run of this check supports that and searches for a failing schedule.
 -/
 import OtpVerif.Model.Pool
+import OtpVerif.Model.PoolProto
 import OtpVerif.Props.C12
 
 namespace OtpVerif.Props.C11
@@ -40,8 +42,26 @@ theorem C11_stale_independent (h1 h2 : Mem.Heap) (pool : Mem.Slice) (cfg : Suite
     (Mem.assemble h2 pool cfg i).h.read (Mem.assemble h2 pool cfg i).msg := by
   rw [Props.C12.C12_refines h1 pool cfg i hp1 hl1 hin1, Props.C12.C12_refines h2 pool cfg i hp2 hl2 hin2, hsame]
 
-/-- (c) the pool protocol found in the code is the reviewed one -/
-theorem C11_pool_protocol : Gen.poolSites = Model.expectedPoolSites := by decide +kernel
+/-- (c) the pool operations found in every function that uses a pool follow the protocol: one Get and one Put of the
+same pool, the buffer is written before anything reads it, it is touched only between Get and Put, and it is never
+handed to code that could keep it -/
+theorem C11_pool_protocol : Gen.poolSites.all (fun s => PoolProto.protocolOk s.2.2) = true := by decide +kernel
+
+/-- … and such an operation list, read as a thread program, is a behaviour of the abstract machine: it runs to
+completion from any reachable world, through reachable worlds only (to which C11_exclusive applies) -/
+theorem C11_protocol_refines {m w} (r : Pool.Reach m w) (i : Nat) (ops : List PoolProto.POp)
+    (hok : PoolProto.protocolOk ops = true) (hn : (w.threads i).held = none) :
+    ∃ w', PoolProto.Runs i (PoolProto.absProg ops) w w' ∧ Pool.Reach m w' ∧ (w'.threads i).held = none := by
+  have hwb : PoolProto.wellBracketed (PoolProto.absProg ops) = true := by
+    unfold PoolProto.protocolOk at hok
+    simp only [Bool.and_eq_true] at hok
+    exact hok.1.2
+  obtain ⟨w', hr, hn'⟩ := PoolProto.wellBracketed_runs i _ hwb w hn
+  exact ⟨w', hr, PoolProto.runs_reach i _ w w' r hr, hn'⟩
+
+-- non-vacuity: the table is not empty and a double Put is refused
+example : Gen.poolSites.length ≥ 2 := by decide
+example : PoolProto.protocolOk [(0, [80]), (2, [80]), (5, []), (1, [80]), (7, [])] = false := by decide
 
 def startsWith (p s : List Nat) : Bool := p.isPrefixOf s
 
@@ -66,5 +86,6 @@ end OtpVerif.Props.C11
 #print axioms OtpVerif.Props.C11.C11_read_own_write
 #print axioms OtpVerif.Props.C11.C11_stale_independent
 #print axioms OtpVerif.Props.C11.C11_pool_protocol
+#print axioms OtpVerif.Props.C11.C11_protocol_refines
 #print axioms OtpVerif.Props.C11.C11_readonly_globals
 #print axioms OtpVerif.Props.C11.C11_functional
